@@ -14,16 +14,16 @@ type C15Case struct {
 	SrcKind  string `json:"srckind"`
 	SrcLen   int    `json:"srclen"`
 	SrcFIFO  bool   `json:"srcfifo"`
-	SrcNils  bool   `json:"srcnils"`  // every third source element (from index 1) is nil
+	SrcNils  bool   `json:"srcnils"`            // every third source element (from index 1) is nil
 	SrcWeird int    `json:"srcweird,omitempty"` // 1+index of a source element that is a typed nil pointer (depth 1..3) or a pointer to one; 0 none
 	SrcMutex bool   `json:"srcmutex,omitempty"` // the source has SetMutex(): a lock taken on it must be released on every path
-	SrcStack int    `json:"srcstack"` // index of a nested Stack element in the source, -1 = none
+	SrcStack int    `json:"srcstack"`           // index of a nested Stack element in the source, -1 = none
 	DstKind  string `json:"dstkind"`
 	DstLen   int    `json:"dstlen"`
-	CapExtra int    `json:"capextra"` // -1: no capacity; else capacity = DstLen + CapExtra
-	Form     string `json:"form"`     // native alias ptrstack ptralias readonly zero zeroalias nil typednil int string cond
-	Opt      string `json:"opt"`      // plain nonest policy
-	Reject   int    `json:"reject"`   // policy: index of the source element the policy rejects (may be >= SrcLen: rejects nothing)
+	CapExtra int    `json:"capextra"`          // -1: no capacity; else capacity = DstLen + CapExtra
+	Form     string `json:"form"`              // native alias ptrstack ptralias readonly zero zeroalias nil typednil int string cond
+	Opt      string `json:"opt"`               // plain nonest policy
+	Reject   int    `json:"reject"`            // policy: index of the source element the policy rejects (may be >= SrcLen: rejects nothing)
 	DstPrep  string `json:"dstprep,omitempty"` // history of the destination before the transfer: "" (constructor+Push) | reset | remove | insertfront | popfifo
 }
 
@@ -53,7 +53,7 @@ func runC15(c C15Case) (st Stats, err error) {
 				v = stackage.Or().Push("nested")
 			}
 			if i == c.SrcWeird-1 {
-				v = weirdPointer(i)
+				v = weirdElement(i + c.DstLen)
 			}
 			srcVals = append(srcVals, v)
 			src.Push(v)
@@ -98,7 +98,7 @@ func runC15(c C15Case) (st Stats, err error) {
 				}
 			}
 			dst.SetPushPolicy(func(x ...any) error {
-				if len(x) > 0 && x[0] == rejectVal {
+				if len(x) > 0 && sameElem(x[0], rejectVal) {
 					return rejectErr
 				}
 				return nil
@@ -217,7 +217,7 @@ func runC15(c C15Case) (st Stats, err error) {
 				}
 				continue
 			}
-			if wantAll[i] != dstNew[i] {
+			if !sameElem(wantAll[i], dstNew[i]) {
 				return false
 			}
 		}
@@ -258,7 +258,7 @@ func runC15(c C15Case) (st Stats, err error) {
 			return st, violf("dst-shrunk/filter-drops", "destination lost elements: %v -> %v", dstOld, dstNew)
 		}
 		for i := range dstOld {
-			if dstOld[i] != dstNew[i] {
+			if !sameElem(dstOld[i], dstNew[i]) {
 				return st, violf("dst-old-content/filter-drops", "destination's previous elements changed: %v -> %v", dstOld, dstNew)
 			}
 		}
@@ -281,6 +281,33 @@ func runC15(c C15Case) (st Stats, err error) {
 }
 
 // weirdPointer: pointer-typed values that are not Stacks: typed nils of depth 1..3 and live pointers to nil pointers.
+// sameElem: identity of two stored elements ([]any elements are not comparable with ==).
+func sameElem(a, b any) bool {
+	if sa, ok := a.([]any); ok {
+		sb, ok2 := b.([]any)
+		return ok2 && len(sa) == len(sb) && identOf(a) == identOf(b)
+	}
+	if _, ok := b.([]any); ok {
+		return false
+	}
+	return a == b
+}
+
+// weirdElement: pointer-typed non-Stack values and []any values (the Marshal envelope type) as plain elements.
+func weirdElement(i int) any {
+	switch i % 10 {
+	case 6:
+		return []any{"only"}
+	case 7:
+		return []any{[]any{"inner"}}
+	case 8:
+		return []any{"a", "b"}
+	case 9:
+		return []any{}
+	}
+	return weirdPointer(i)
+}
+
 func weirdPointer(i int) any {
 	switch i % 6 {
 	case 0:
@@ -341,6 +368,12 @@ func enumC15(tier Tier, yield func(C15Case)) {
 						yield(c)
 						c.Reject = srcLen + 1
 						yield(c)
+						if srcLen > 0 {
+							// an accepting policy and an element of an unusual Go type (pointer-typed, []any ...)
+							c.SrcWeird = 1 + (srcLen+dstLen+capExtra+2)%srcLen
+							yield(c)
+							c.SrcWeird = 0
+						}
 					}
 				}
 			}
